@@ -1,6 +1,7 @@
 """C02 — execution never leaves the interpreter's own memory: we verify the *generator*."""
 from mirlib import *
 from rules import csa_run, vmx, tables
+from rules import psc as _psc
 from rules.shared import deref
 
 META = {
@@ -142,6 +143,11 @@ def run(ctx, rep):
     # the transmute sites read bytes written from these enums: OpCode::from only via VM::next; Builtin transmute only in CallBuiltin arm
     for f, b, t in F.callers_of(lambda p: p == '<compiler::OpCode as core::convert::From<u8>>::from'):
         ok = f.path in ('vm::VM::next', 'compiler::bytecode_to_human')
+        if not ok and f.path == vmx.vmx(ctx)['fn'].path:
+            # decoded in the dispatch loop itself: the byte is the one just fetched and the result is what the loop switches on
+            vv = vmx.vmx(ctx)
+            a0 = _psc.strip(_psc.sym(f, t['args'][0]))
+            ok = a0[0] == 'call' and a0[1] == 'vm::VM::read_u8' and b in f.dominators().get(vv['switch'], ()) and b in vv['fn'].reachable(vv['header'])
         rep.ob(ok, 'R02.2', f.path, 'OpCode::from(byte)', 'opcode bytes are decoded only at the instruction-fetch position', span_loc(t['span']))
     ntrans = 0
     for f in F.all_fns:
@@ -218,6 +224,30 @@ def byte_of(v, env):
     return None
 
 
+def le_array_of(v, env):
+    """x when v is (a reference to) the two-byte array x.to_le_bytes(), else None"""
+    v = uncast(v)
+    n = 0
+    while v[0] == 'ref' and v[1] in env and n < 4:
+        v = uncast(env[v[1]])
+        n += 1
+    if v[0] == 'call' and v[1].endswith('::to_le_bytes') and 'u16' in v[1]:
+        return uncast(v[2][0])
+    return None
+
+
+def narrowed_base(v):
+    """x when v is x itself or the success value of a checked narrowing of x (`narrow(x)?`, `u16::try_from(x)?`)"""
+    v = uncast(v)
+    if v[0] == 'field' and v[1][0] == 'downcast' and v[1][2] in ('Continue', 'Ok'):
+        inner = uncast(v[1][1])
+        if inner[0] == 'call' and inner[1].endswith('Try>::branch'):
+            inner = uncast(inner[2][0])
+        if inner[0] == 'call' and (inner[1] == 'compiler::narrow' or inner[1].endswith(('::try_from', '::try_into'))):
+            return uncast(inner[2][0])
+    return v
+
+
 def bytes_joined(r, env):
     """[low byte source, high byte source] of a 16-bit value assembled from two bytes"""
     r = uncast(r)
@@ -285,9 +315,15 @@ def check_primitives(ctx, rep):
     ok = len(ps) == 1
     if ok:
         pushes = [c for c in ps[0].calls if c[1] == PUSH]
-        ok = len(pushes) == 2 and not self_writes(ps[0]) and all(c[1] == PUSH or c[1].endswith(('::to_le_bytes', '::to_be_bytes')) for c in ps[0].calls)
-        if ok:
-            ok = byte_of(pushes[0][2][1], ps[0].env) == (('local', 2), 0) and byte_of(pushes[1][2][1], ps[0].env) == (('local', 2), 1)
+        ext = [c for c in ps[0].calls if c[1].endswith('::extend_from_slice')]
+        if len(ext) == 1 and not pushes:
+            # both bytes appended at once: extend_from_slice(&v.to_le_bytes())
+            ok = not self_writes(ps[0]) and all(c is ext[0] or c[1].endswith('::to_le_bytes') for c in ps[0].calls) and \
+                ext[0][2][0][0] == 'ref' and ext[0][2][0][1].startswith('_1.*') and le_array_of(ext[0][2][1], ps[0].env) == ('local', 2)
+        else:
+            ok = len(pushes) == 2 and not self_writes(ps[0]) and all(c[1] == PUSH or c[1].endswith(('::to_le_bytes', '::to_be_bytes')) for c in ps[0].calls)
+            if ok:
+                ok = byte_of(pushes[0][2][1], ps[0].env) == (('local', 2), 0) and byte_of(pushes[1][2][1], ps[0].env) == (('local', 2), 1)
     rd = F.fn('vm::VM::read_u16')
     rps = [p for p in AbsInt(F, rd).run() if p.exit == 'return']
     okr = len(rps) == 1
@@ -300,6 +336,26 @@ def check_primitives(ctx, rep):
     ok = bool(ps)
     for p in ps:
         idxm = [c for c in p.calls if c[1].endswith('IndexMut<I>>::index_mut')]
+        if any(c[1].endswith('::from_residual') for c in p.calls):
+            # the target does not fit an operand: refused before anything is written
+            ok = ok and not idxm and not [c for c in p.calls if c[1] == PUSH or 'copy_from' in c[1] or 'extend' in c[1]] and not self_writes(p)
+            continue
+        cps = [c for c in p.calls if c[1].endswith('::copy_from_slice')]
+        if len(idxm) == 1 and len(cps) == 1:
+            # both bytes stored at once: self.instructions[idx + 1..idx + 3].copy_from_slice(&value.to_le_bytes())
+            rng = uncast(idxm[0][2][1])
+
+            def plus(v):
+                v = uncast(v)
+                if v[0] == 'field' and v[1][0] == 'binop' and v[1][1] == 'AddWithOverflow':
+                    v = ('binop', 'Add', v[1][2], v[1][3])
+                return int_of(v[3]) if is_binop(v, 'Add') and v[2] == ('local', 2) else None
+            okr_ = rng[0] == 'agg' and 'Range' in str(rng[1]) and len(rng[3]) == 2 and plus(rng[3][0]) == 1 and plus(rng[3][1]) == 3
+            dst = uncast(cps[0][2][0])
+            okd = dst[0] == 'ref' and dst[1] == (idxm[0][3] or '') + '.*'
+            src_ = le_array_of(cps[0][2][1], p.env)
+            ok = ok and okr_ and okd and src_ is not None and narrowed_base(src_) == ('local', 3) and not [w for w in self_writes(p) if 'f3' in w[0]]
+            continue
 
         def is_idx_plus(v, n):
             v = uncast(v)
@@ -313,7 +369,7 @@ def check_primitives(ctx, rep):
                 if w[1] == (c[3] or '') + '.*':
                     stored[id(c)] = w[2]
         okb = len(idxm) == 2 and all(id(c) in stored for c in idxm) and \
-            byte_of(stored[id(idxm[0])], p.env) == (('local', 3), 0) and byte_of(stored[id(idxm[1])], p.env) == (('local', 3), 1)
+            [(narrowed_base(b_[0]), b_[1]) if b_ else None for b_ in (byte_of(stored[id(idxm[0])], p.env), byte_of(stored[id(idxm[1])], p.env))] == [(('local', 3), 0), (('local', 3), 1)]
         ok = ok and len(idxm) == 2 and is_idx_plus(idxm[0][2][1], 1) and is_idx_plus(idxm[1][2][1], 2) and okb and not [w for w in self_writes(p) if 'f3' in w[0]]
     rep.ob(ok, 'R02.8', fn.path, 'contract', 'overwrites exactly bytes idx+1 and idx+2 (low byte, high byte of the value) and nothing else', fn.loc())
     # last_instruction_is: pure
